@@ -179,21 +179,21 @@ PROPS = {
     ),
     "C02": dict(
         level="proof", extra=["atomic_audit", "threads"], coq_files=["Properties/C02.v"],
-        theorems={"Properties/C02.v": ["C02_guards_le_1", "C02_grant_only_when_free", "C02_guard_count", "C02_is_locked_exact"]},
+        theorems={"Properties/C02.v": ["C02_guards_le_1", "C02_grant_only_when_free", "C02_guard_count", "C02_is_locked_exact", "C02_monitor"]},
         runs=MUTEX_RUNS, keys=["r", "p"], assumptions=[SCHED_NOTE], monitor=dict(id=2, runs=["mutex-k3-unfair", "mutex-k3-fair"]),
         level_text="Theorems over every reachable state of the mutex model (any number of lock futures, both fairness modes): guards <= 1, locked iff one guard, a poll/try_lock completes only from a guard-free state and creates exactly one, is_locked() exact. Model tied to the crate by exhaustive model-guided exploration (k=3 fixpoint, local and parking_lot flavours) comparing results, is_locked() and the number of guard objects the harness holds.",
         level_note="Exclusive access to T follows from guards<=1 only under the atomicity assumptions (lock_api mutual exclusion; all state inside the lock). " + SCHED_NOTE,
     ),
     "C03": dict(
         level="proof", extra=["atomic_audit", "threads"], coq_files=["Properties/C03.v"],
-        theorems={"Properties/C03.v": ["C03_woken_when_free", "C03_pending_is_arrivals", "C03_progress"]},
+        theorems={"Properties/C03.v": ["C03_woken_when_free", "C03_pending_is_arrivals", "C03_progress", "C03_monitor"]},
         runs=MUTEX_RUNS, keys=["r", "w"], assumptions=[SCHED_NOTE], monitor=dict(id=3, runs=["mutex-k3-unfair", "mutex-k3-fair"]),
         level_text="Theorem over all histories: whenever the mutex is free and lock futures are pending, a pending future (fair: the oldest in trace-recomputed arrival order) has been woken since its last poll through the waker of that poll (tracker defined on the observable trace); a notified future polled while free succeeds. Correspondence compares results and ordered wake lists on every transition of the k=3 state space with waker swaps.",
         level_note="Liveness ('eventually completes') is given as the safety invariant + one-step progress lemma, not as a temporal theorem. " + SCHED_NOTE,
     ),
     "C04": dict(
         level="proof", coq_files=["Properties/C04.v"],
-        theorems={"Properties/C04.v": ["C04_fifo", "C04_queue_is_arrivals", "C04_drop_is_filter"]},
+        theorems={"Properties/C04.v": ["C04_fifo", "C04_queue_is_arrivals", "C04_drop_is_filter", "C04_monitor"]},
         runs=["mutex-k3-fair", "mutex-k4-fair"], keys=["r"], monitor=dict(id=4, runs=["mutex-k3-fair"]),
         level_text="Theorem over all fair-mode histories: a lock future completes only if it is the oldest pending one in the arrival order recomputed from the trace, try_lock only if nobody is pending; the wait queue equals that arrival order; drop = filter. Correspondence compares every result on the fair state space.",
         level_note="Kernel-checked on the Gallina model; tie to the code by differential execution.",
@@ -248,7 +248,7 @@ PROPS = {
     ),
     "C11": dict(
         level="proof", extra=["atomic_audit", "threads"], coq_files=["Properties/C11.v", "Properties/C11b.v", "Properties/C13.v"],
-        theorems={"Properties/C11.v": ["C11_close_status", "C11_closed_monotone", "C11_send_after_close", "C11_close_wakes_all", "C11_close_wakes_trace", "C11_drain_then_none", "C11_implicit_close", "C11_last_receiver_clears"],
+        theorems={"Properties/C11.v": ["C11_close_status", "C11_closed_monotone", "C11_send_after_close", "C11_close_wakes_all", "C11_close_wakes_trace", "C11_handles_trace", "C11_drain_then_none", "C11_implicit_close", "C11_last_receiver_clears"],
                   "Properties/C11b.v": ["C11b_close_status", "C11b_closed_monotone", "C11b_implicit_close", "C11b_refuted_pinned"],
                   "Properties/C13.v": ["C11c_close_status", "C11c_closed_monotone", "C11c_implicit_close"]},
         runs=MPMC_RUNS + ONESHOT_RUNS + STATE_RUNS, keys=["r", "w", "p", "v"], assumptions=[SCHED_NOTE],
